@@ -17,10 +17,17 @@ Correspondence (model `MirModel.Chord.*` vs the real `mir_eval.chord`):
   join        join on recombined / damaged parts
   primitives  pitch_class_to_semitone, scale_degree_to_semitone, scale_degree_to_bitmap, quality_to_bitmap,
               reduce_extended_quality on table keys and arbitrary strings
+  gen_chordfn the definitions REGENERATED from the source on this run (lean/MirGen/ChordFns.lean, harness/translate/
+              scalars_chordfn.py; driver op gen.chordfn) of validate_chord_label / split / join / encode /
+              reduce_extended_quality / scale_degree_to_bitmap (any length) / quality_to_bitmap vs the real functions on the
+              same label streams (valid, single-fault, accidental runs of 11..61), damaged join parts, arbitrary strings;
+              Props/C10_GenFns.lean proves them equal to the hand-written models, so this suite checks the translator and
+              its run-time library (MirModel/PyChord.lean), the suites above check the models
 Oracle (real code only): nothing but InvalidChordException escapes validate/split/encode for ANY string;
 acceptance = the documented grammar; root/bitmap/bass ranges and the bass bit; N/X sentinels; the bitmap is the
 documented one (hand-transcribed shorthand table, added/omitted degrees, extended-chord reduction);
-encode(join(*split(l))) == encode(l).
+encode(join(*split(l))) == encode(l); join of a LIST of extensions is the documented rendering root[:quality][(e1,..,en)][/bass]
+(extensions in the order given) or InvalidChordException.
 """
 import itertools
 
@@ -54,7 +61,11 @@ ASSUMPTIONS = ["Python's `re` engine implements the regular-expression semantics
                "harness/translate/regex.py reads the pattern, the (absent) flags and the method (`match`) from chord.py's "
                "AST and parses the pattern with Python's own `re._parser`; it fails closed on anything else",
                "Python set iteration order is unobservable by encode (bitmap sums commute; proved for every "
-               "permutation in join_split_encode)"]
+               "permutation in join_split_encode; for the translated loop, value AND exception: C10_GenFns.encode_loop_order_irrelevant)",
+               "harness/translate/scalars_chordfn.py (the subset and the ownership discipline in its docstring) and the run-time "
+               "library lean/MirModel/PyChord.lean read str.split(c) / c.join / str.strip() / set / dict.get / list item stores / "
+               "np.array / += / v[i] = c / (v > 0).astype the way Python and NumPy do; validated on every run by suite gen_chordfn "
+               "(generated definitions vs the real functions), not proved"]
 UNPROVED = []        # regex = grammar is now a theorem about the regenerated pattern (Props/C10_Regex.lean: regex_iff_grammar)
 EXHAUSTIVE = {"quick": False, "thorough": True}
 
